@@ -626,7 +626,7 @@ def mark_transparency(check, quick):
     # markOK asks that NO stored location of the whole tree changes sides of the cursor.  A location stored exactly at the cursor
     # (`any|(k in p for p in d)`: the generator's scope starts at the parenthesis) does, although it lives in a flow the query at the
     # name never visits: such a cursor is outside the theorem's hypotheses (it is judged by the oracle above only), not a failure.
-    outside = [r for r in reps if not r.get('ok') and r.get('equal') and r.get('renQ') and r.get('layoutPair') and r.get('nameFixed')
+    outside = [r for r in reps if not r.get('ok') and r.get('equal') and r.get('tgtQ') and r.get('layoutPair') and r.get('nameFixed')
                and r.get('cursorOK') is False]
     bad = [(c, r) for c, r in zip(cases, reps) if not r.get('ok') and not any(r is o for o in outside)]
     check.extra['mark_transparency'] = {'cursors': len(cases), 'markOK': len(cases) - len(bad) - len(outside),
@@ -636,6 +636,13 @@ def mark_transparency(check, quick):
     check.oblige('the real marked tree is markTree of the real unmarked tree and the hypotheses of C12_mark_transparent hold on every sampled real '
                  'cursor, except cursors lying exactly on a stored location (counted, judged by the oracle only)', not bad,
                  '; '.join('%r at %s: %r' % (c[0][:80], c[2], {k: v for k, v in r.items() if k != 'newId'}) for c, r in bad[:3]))
+    # cross-check of the PROVED rename lemma (extract_rename_proved): wherever its side condition tgtQ holds, its conclusion at
+    # the level of compile (renQ, evaluated by the driver) must hold too - a failure would be a statement-to-driver wiring bug
+    wrong = [(c, r) for c, r in zip(cases, reps) if r.get('tgtQ') and r.get('renQ') is False]
+    check.extra['mark_transparency']['rename_lemma_cross_check'] = {'cursors_with_side_condition': sum(1 for r in reps if r.get('tgtQ')),
+                                                                    'conclusion_false': len(wrong)}
+    check.oblige('cross-check: on every sampled cursor where the side condition tgtQ of the proved rename lemma holds, its conclusion renQ '
+                 'evaluates true', not wrong, '; '.join('%r at %s' % (c[0][:80], c[2]) for c, r in wrong[:3]))
     # the ATTRIBUTE branch of assist: cursors right before (`x.|y`), inside and at the end of an existing attribute name
     acases = []
     for src in sources:
@@ -659,14 +666,17 @@ def mark_transparency(check, quick):
                     continue
                 acases.append((src, marked, pos))
     areps = extractcorr.mark_attr_pairs(acases)
-    aoutside = [r for r in areps if not r.get('ok') and r.get('equal') and r.get('renQ') and r.get('layoutPair')
+    aoutside = [r for r in areps if not r.get('ok') and r.get('equal') and r.get('layoutPair')
                 and r.get('queriesFixed') and r.get('queriesOK') is False]
+    awrong = [(c, r) for c, r in zip(acases, areps) if r.get('equal') and r.get('renQ') is False]
     abad = [(c, r) for c, r in zip(acases, areps) if not r.get('ok') and not any(r is o for o in aoutside)]
     check.extra['mark_transparency_attr'] = {'cursors': len(acases), 'markAttrOK': len(acases) - len(abad) - len(aoutside),
                                              'outside_hypotheses': len(aoutside),
                                              'note': 'markAttrOK = the real marked tree is markAttrTree of the real unmarked tree and the '
                                                      'hypotheses of C12_mark_transparent_attr hold: for those cursors the equality of the tables '
                                                      'at every Name inside attr.value is a theorem'}
+    check.oblige('cross-check: the conclusion renAQ of the proved attribute-rename lemma (no side condition) evaluates true on every sampled '
+                 'attribute cursor', not awrong, '; '.join('%r at %s' % (c[0][:80], c[2]) for c, r in awrong[:3]))
     check.oblige('attribute branch: the real marked tree is markAttrTree of the real unmarked tree and the hypotheses of C12_mark_transparent_attr '
                  'hold on every sampled real attribute cursor', not abad,
                  '; '.join('%r at %s: %r' % (c[0][:80], c[2], {k: v for k, v in r.items() if k != 'newAttr'}) for c, r in abad[:3]))
